@@ -113,7 +113,7 @@ Consume ==
             /\ UNCHANGED <<ctx, buf, qpc, qtask, wpc, wtask, cnt, ppc, pcur, pres, plate, started, ended, lastPanic, recovered, waitDone, sres>>
             /\ UNCHANGED <<owed, cancelOpen, waitOpen>>
        [] e.e = "cancel.begin" -> cancelOpen' = TRUE /\ UNCHANGED <<vars, owed, waitOpen>>
-       [] e.e = "cancel.end" -> ctx = "done" /\ UNCHANGED <<vars, owed, cancelOpen, waitOpen>>
+       [] e.e \in {"cancel.end", "cancel.seen"} -> ctx = "done" /\ UNCHANGED <<vars, owed, cancelOpen, waitOpen>>   \* seen: an observer found ctx.Done() closed
        [] e.e = "wait.begin" -> waitOpen' = TRUE /\ UNCHANGED <<vars, owed, cancelOpen>>
        [] e.e \in {"quiescent", "w.done", "unstable"} -> UNCHANGED <<vars, owed, cancelOpen, waitOpen>>
        [] e.e \in {"task.start", "task.end", "task.panic"} ->
